@@ -18,11 +18,19 @@
        independent of the order in which the recorded statements are presented -- _IMPORTS is a set --
        (C06_import_header_order_independent; the code before the F37 repair is refuted by
        C06_orig_import_header_order_dependent).
-   NOT proved in Coq (validated on the real parser and the real pprint/repr by the independent predicates
-   of harness/props/c06.py): that parsing the emitted text does yield that store, i.e. that each emitted
-   value text evaluates back to an equal value of the same type. *)
+     - value texts (Model/Repr.v, Proofs/ReprProofs.v; last section of this file): the text gin writes for a value
+       -- Python's repr of it, or ANY re-layout of that text by pprint (line breaks / comments after any token
+       inside brackets) -- is a rendering of the value's own literal tree, for values of any nesting depth; the
+       parser (parse_value, and the API parse_single_value = gin.config.parse_value) reads back exactly the
+       value the tree denotes; the order in which the items of a dict are written is irrelevant.
+   NOT proved in Coq (validated on the real tokenizer and the real pprint/repr by the value-text engine and the
+   independent predicates of harness/props/c06.py): that the token stream of the real repr / pformat text of a
+   Python value IS repr_toks / a rendering of the tree the harness builds for it, and that the oracle's atom
+   values are the Python values. *)
 From Coq Require Import List String ZArith Bool Arith Ascii Sorting.Permutation Sorting.Sorted.
 From GinV Require Import Lib.Out Lib.PyStr Model.SelectorMap Model.Serial Proofs.SerialProofs Proofs.SerialProofs2 Proofs.SerialProofs3.
+From GinV Require Import Model.Parser Model.ParserSpec Model.Repr
+                         Proofs.ParserLemmas Proofs.ParserProofs Proofs.ParserApi Proofs.ReprProofs.
 Import ListNotations.
 Open Scope string_scope.
 Open Scope list_scope.
@@ -294,3 +302,213 @@ Print Assumptions C06_restored_fixpoint.
 Print Assumptions C06_none_section_refuted.
 Print Assumptions C06_import_header_idempotent.
 Print Assumptions C06_sort_is_stable.
+
+
+(* ================================================================== *)
+(* ---- value texts: what gin writes for a value reads back as that value (Model/Repr.v) ----
+   [pv] is a value tree (atoms given by the tokens of their repr), [lit_of v] the syntax tree of repr(v) in the
+   literal grammar of C02, [repr_toks v] the token stream of Python's repr(v), [denote o v] Python's meaning of the
+   tree (atoms through the oracle), [atoms_ok o v]: the atoms are NAME / NUMBER / STRING tokens the oracle knows.
+   [pv_atoms v] are the atom tokens; [tok_ok] (C02) says a NAME / NUMBER / STRING token never spells a bracket,
+   "-" or nothing -- asked of the atoms only, it follows for every token of every rendering. *)
+
+(* repr(v) is the trivia-free rendering of the value's own tree *)
+Theorem C06_value_repr_is_rendering : forall v n,
+  exists n', render (lit_of v) (fun _ => []) n false = (repr_toks v, n').
+Proof. exact value_repr_is_rendering. Qed.
+Theorem C06_value_repr_is_rendering_inside : forall v n inside,
+  exists n', render (lit_of v) (fun _ => []) n inside = (repr_toks v, n').
+Proof. exact value_repr_is_rendering_inside. Qed.
+
+(* every tree over meaningful atoms is well formed and means something *)
+Theorem C06_value_wf : forall o v, atoms_ok o v -> lit_wf o (lit_of v).
+Proof. exact value_wf. Qed.
+Theorem C06_value_denotes : forall o v, atoms_ok o v -> exists x, denote o v = Some x.
+Proof. exact value_denotes. Qed.
+
+(* the side condition of C02 on tokens is one on the atoms only *)
+Theorem C06_value_repr_toks_ok : forall v, Forall tok_ok (repr_toks v) <-> Forall tok_ok (pv_atoms v).
+Proof. exact repr_toks_ok_iff. Qed.
+Theorem C06_value_layout_toks_ok : forall v lay n inside toks n',
+  Forall tok_ok (pv_atoms v) -> lay_ok lay -> render (lit_of v) lay n inside = (toks, n') -> Forall tok_ok toks.
+Proof. intros v lay n inside toks n' H. exact (layout_toks_ok_all v H lay n inside toks n'). Qed.
+
+(* round trip on the repr text, whatever follows it (an operator, the NEWLINE, the end marker) *)
+Theorem C06_value_repr_roundtrip : forall o v x rest wb,
+  atoms_ok o v -> denote o v = Some x -> Forall tok_ok (pv_atoms v) ->
+  rest <> [] -> (forall t r', rest = t :: r' -> follow_ok t) ->
+  parse_value (value_fuel (repr_toks v ++ rest)) o wb (repr_toks v ++ rest) = POk (x, rest).
+Proof. exact value_repr_roundtrip. Qed.
+
+(* ... and on ANY layout of it: any NL / COMMENT tokens after any token inside brackets (what pprint's line
+   breaking produces), trailing trivia [tr] behind the value *)
+Theorem C06_value_any_layout_roundtrip : forall o v x lay n inside toks n' tr rest wb,
+  atoms_ok o v -> denote o v = Some x -> Forall tok_ok (pv_atoms v) ->
+  lay_ok lay -> render (lit_of v) lay n inside = (toks, n') -> Forall trivia_tok tr ->
+  rest <> [] -> (forall t r', rest = t :: r' -> follow_ok t) ->
+  parse_value (value_fuel (toks ++ tr ++ rest)) o wb (toks ++ tr ++ rest) = POk (x, rest).
+Proof. exact value_any_layout_roundtrip_atoms. Qed.
+
+(* the API (gin.config.parse_value, run by _format_value's representability test and by a reader of the text):
+   any rendering, then comments / NLs, then nothing or a NEWLINE and any end-type tokens, then the end marker *)
+Theorem C06_value_text_reads_back : forall o v x lay n inside toks n' tr tl e more,
+  atoms_ok o v -> denote o v = Some x -> Forall tok_ok (pv_atoms v) ->
+  lay_ok lay -> render (lit_of v) lay n inside = (toks, n') ->
+  Forall trivia_tok tr ->
+  Forall (fun t => In (ty t) end_types) tl -> (forall t r, tl = t :: r -> ty t = NEWLINE) ->
+  ty e = ENDMARKER ->
+  parse_single_value o (toks ++ tr ++ tl ++ e :: more) = POk x.
+Proof. exact value_text_reads_back. Qed.
+(* the text of repr(v) as the tokenizer delivers it: its tokens, NEWLINE, ENDMARKER *)
+Theorem C06_value_repr_reads_back : forall o v x nl e,
+  atoms_ok o v -> denote o v = Some x -> Forall tok_ok (pv_atoms v) ->
+  ty nl = NEWLINE -> ty e = ENDMARKER ->
+  parse_single_value o (repr_toks v ++ [nl; e]) = POk x.
+Proof. exact value_repr_reads_back. Qed.
+
+(* dict order (pprint sorts the items by key; Python dict equality ignores order).  [out_eqb] decides equality of
+   observations, so "pairwise different keys" is NoDup of the keys *)
+Theorem C06_out_eqb_iff : forall a b, out_eqb a b = true <-> a = b.
+Proof. exact out_eqb_iff. Qed.
+Theorem C06_keys_distinct_NoDup : forall kvs, keys_distinct kvs <-> NoDup (map fst kvs).
+Proof. exact keys_distinct_NoDup. Qed.
+(* with pairwise different keys no entry is merged, and a permutation of the items gives a permutation of the entries *)
+Theorem C06_dict_order_irrelevant : forall kvs1 kvs2,
+  keys_distinct kvs1 -> Permutation kvs1 kvs2 ->
+  keys_distinct kvs2 /\
+  exists es1 es2, build_dict kvs1 = OT "D" es1 /\ build_dict kvs2 = OT "D" es2 /\
+    es1 = map (fun kv => OL [fst kv; snd kv]) kvs1 /\ es2 = map (fun kv => OL [fst kv; snd kv]) kvs2 /\
+    Permutation es1 es2.
+Proof. exact dict_order_irrelevant. Qed.
+(* at the level of values: the items of a dict value written in another order denote a dict with the same entries *)
+Theorem C06_dict_value_order_irrelevant : forall o l1 l2 x1,
+  Permutation l1 l2 -> denote o (PDict l1) = Some x1 ->
+  (forall kvs, eval_ditems o (map ditem_lit l1) = Some kvs -> keys_distinct kvs) ->
+  exists x2 kvs1 kvs2, denote o (PDict l2) = Some x2 /\
+    x1 = OT "D" (map (fun kv => OL [fst kv; snd kv]) kvs1) /\
+    x2 = OT "D" (map (fun kv => OL [fst kv; snd kv]) kvs2) /\
+    eval_ditems o (map ditem_lit l1) = Some kvs1 /\ eval_ditems o (map ditem_lit l2) = Some kvs2 /\
+    Permutation kvs1 kvs2.
+Proof. exact dict_value_order_irrelevant. Qed.
+(* the hypothesis is needed: equal keys are merged (the later value, at the earlier position) *)
+Example C06_dict_equal_keys_merged :
+  build_dict [(OZ 1, OS "a"); (OZ 2, OS "b"); (OZ 1, OS "c")] = OT "D" [OL [OZ 1; OS "c"]; OL [OZ 2; OS "b"]].
+Proof. vm_compute. reflexivity. Qed.
+
+(* the condition on the atom tokens is needed (atoms_ok alone does not give it): an "atom" spelled like a bracket,
+   known to the oracle, satisfies atoms_ok and denotes a value, but the parser takes it for a container *)
+Example C06_atom_condition_needed :
+  let v := PAtom {| ty := NAME; text := "["; srow := 1; scol := 0; erow := 1; ecol := 1 |} in
+  let o := [("[", Some (OZ 1))] in
+  atoms_ok o v /\ denote o v = Some (OZ 1) /\ ~ Forall tok_ok (pv_atoms v) /\
+  parse_single_value o (repr_toks v ++ [ {| ty := NEWLINE; text := ""; srow := 1; scol := 1; erow := 1; ecol := 2 |};
+                                         {| ty := ENDMARKER; text := ""; srow := 2; scol := 0; erow := 2; ecol := 0 |} ])
+  = PErr (ESyntax 1).
+Proof.
+  cbv zeta. split; [|split; [|split]].
+  - cbn. split; [left; reflexivity|]. split; [discriminate | eexists; reflexivity].
+  - vm_compute. reflexivity.
+  - cbn. intro H. pose proof (Forall_inv H (or_introl eq_refl)) as [_ [_ [C _]]]. cbn in C. discriminate.
+  - vm_compute. reflexivity.
+Qed.
+
+(* ---- non-vacuity: the value {'k': [-1, (2,)], 3: 'a b'} ---- *)
+Definition C06_tk (k : ttype) (s : string) : token := {| ty := k; text := s; srow := 1; scol := 0; erow := 1; ecol := 0 |}.
+Definition C06_ex_value : pv :=
+  PDict [(PStr (C06_tk STRING "'k'"), PList [PNeg (C06_tk NUMBER "1"); PTuple [PAtom (C06_tk NUMBER "2")]]);
+         (PAtom (C06_tk NUMBER "3"), PStr (C06_tk STRING "'a b'"))].
+Definition C06_ex_oracle : oracle :=
+  [("'k'", Some (OT "str" [OS "k"])); ("-1", Some (OT "int" [OS "-1"])); ("2", Some (OT "int" [OS "2"]));
+   ("3", Some (OT "int" [OS "3"])); ("'a b'", Some (OT "str" [OS "a b"]))].
+Definition C06_ex_out : out :=
+  OT "D" [OL [OT "str" [OS "k"]; OT "L" [OT "int" [OS "-1"]; OT "T" [OT "int" [OS "2"]]]];
+          OL [OT "int" [OS "3"]; OT "str" [OS "a b"]]].
+Definition C06_ex_tail : list token := [C06_tk NEWLINE ""; C06_tk ENDMARKER ""].
+
+Example C06_ex_atoms_ok : atoms_ok C06_ex_oracle C06_ex_value.
+Proof.
+  cbn. repeat split; try (right; reflexivity); try discriminate; eexists; reflexivity.
+Qed.
+Example C06_ex_atoms_tok_ok : Forall tok_ok (pv_atoms C06_ex_value).
+Proof.
+  cbn. repeat (apply Forall_cons; [intros _; unfold text_ok; cbn; repeat split; discriminate|]). apply Forall_nil.
+Qed.
+Example C06_ex_denotes : denote C06_ex_oracle C06_ex_value = Some C06_ex_out.
+Proof. vm_compute. reflexivity. Qed.
+Example C06_ex_repr_texts :
+  map text (repr_toks C06_ex_value) =
+  ["{"; "'k'"; ":"; "["; "-"; "1"; ","; "("; "2"; ","; ")"; "]"; ","; "3"; ":"; "'a b'"; "}"].
+Proof. vm_compute. reflexivity. Qed.
+(* by computation ... *)
+Example C06_ex_repr_reads_back_computes :
+  parse_single_value C06_ex_oracle (repr_toks C06_ex_value ++ C06_ex_tail) = POk C06_ex_out.
+Proof. vm_compute. reflexivity. Qed.
+(* ... and BY the theorem, from its hypotheses *)
+Example C06_ex_repr_reads_back_applies :
+  parse_single_value C06_ex_oracle (repr_toks C06_ex_value ++ C06_ex_tail) = POk C06_ex_out.
+Proof.
+  exact (C06_value_repr_reads_back C06_ex_oracle C06_ex_value C06_ex_out (C06_tk NEWLINE "") (C06_tk ENDMARKER "")
+           C06_ex_atoms_ok C06_ex_denotes C06_ex_atoms_tok_ok eq_refl eq_refl).
+Qed.
+(* a re-layout: a line break after the opening brace, a comment and a line break after the comma inside the list,
+   line breaks behind the tuple, after the comma between the two items and before the closing brace *)
+Definition C06_ex_layout : layout :=
+  fun n => match n with 0 | 11 | 14 | 18 => [C06_tk NL ""] | 6 => [C06_tk COMMENT "# c"; C06_tk NL ""] | _ => [] end.
+Example C06_ex_layout_ok : lay_ok C06_ex_layout.
+Proof.
+  intro n. do 19 (destruct n as [|n]; [cbn; repeat constructor; (left; reflexivity) || (right; reflexivity)|]).
+  constructor.
+Qed.
+Example C06_ex_layout_texts :
+  map text (fst (render (lit_of C06_ex_value) C06_ex_layout 0 false)) =
+  ["{"; ""; "'k'"; ":"; "["; "-"; "1"; ","; "# c"; ""; "("; "2"; ","; ")"; ""; "]"; ","; ""; "3"; ":"; "'a b'"; ""; "}"].
+Proof. vm_compute. reflexivity. Qed.
+Example C06_ex_layout_reads_back_applies :
+  parse_single_value C06_ex_oracle (fst (render (lit_of C06_ex_value) C06_ex_layout 0 false) ++ [] ++ [C06_tk NEWLINE ""] ++ C06_tk ENDMARKER "" :: [])
+  = POk C06_ex_out.
+Proof.
+  apply (C06_value_text_reads_back C06_ex_oracle C06_ex_value C06_ex_out C06_ex_layout 0 false _
+           (snd (render (lit_of C06_ex_value) C06_ex_layout 0 false)) [] [C06_tk NEWLINE ""] (C06_tk ENDMARKER "") []
+           C06_ex_atoms_ok C06_ex_denotes C06_ex_atoms_tok_ok C06_ex_layout_ok).
+  - apply surjective_pairing.
+  - constructor.
+  - repeat constructor.
+  - intros t r E. injection E as <- _. reflexivity.
+  - reflexivity.
+Qed.
+Example C06_ex_layout_reads_back_computes :
+  parse_single_value C06_ex_oracle (fst (render (lit_of C06_ex_value) C06_ex_layout 0 false) ++ C06_ex_tail) = POk C06_ex_out.
+Proof. vm_compute. reflexivity. Qed.
+(* the items in the other order (as pprint would sort them if 3 < 'k' were defined): the same entries *)
+Example C06_ex_dict_other_order :
+  denote C06_ex_oracle (PDict (rev match C06_ex_value with PDict l => l | _ => [] end))
+  = Some (OT "D" (rev match C06_ex_out with OT _ es => es | _ => [] end)).
+Proof. vm_compute. reflexivity. Qed.
+
+Print Assumptions C06_value_repr_is_rendering.
+Print Assumptions C06_value_repr_is_rendering_inside.
+Print Assumptions C06_value_wf.
+Print Assumptions C06_value_denotes.
+Print Assumptions C06_value_repr_toks_ok.
+Print Assumptions C06_value_layout_toks_ok.
+Print Assumptions C06_value_repr_roundtrip.
+Print Assumptions C06_value_any_layout_roundtrip.
+Print Assumptions C06_value_text_reads_back.
+Print Assumptions C06_value_repr_reads_back.
+Print Assumptions C06_out_eqb_iff.
+Print Assumptions C06_keys_distinct_NoDup.
+Print Assumptions C06_dict_order_irrelevant.
+Print Assumptions C06_dict_value_order_irrelevant.
+Print Assumptions C06_dict_equal_keys_merged.
+Print Assumptions C06_atom_condition_needed.
+Print Assumptions C06_ex_atoms_ok.
+Print Assumptions C06_ex_atoms_tok_ok.
+Print Assumptions C06_ex_denotes.
+Print Assumptions C06_ex_repr_texts.
+Print Assumptions C06_ex_repr_reads_back_computes.
+Print Assumptions C06_ex_repr_reads_back_applies.
+Print Assumptions C06_ex_layout_ok.
+Print Assumptions C06_ex_layout_texts.
+Print Assumptions C06_ex_layout_reads_back_applies.
+Print Assumptions C06_ex_layout_reads_back_computes.
+Print Assumptions C06_ex_dict_other_order.
